@@ -155,14 +155,56 @@ def run(ctx):
         if c.name() == "take_raw" and c.path.startswith(PARSER):
             tr_callers[c.fn.path].append(c)
     ctx.floor("callers of take_raw", len(tr_callers), 3)
-    SINK_FNS = ("add_trivia_to_terminal", "append_skipped_token_to_pending_trivia")
+    TEXT_FIELDS = {"leading_trivia", "text", "trailing_trivia"}
+
+    def terminal_fields_used(f):
+        """Fields of a LexerTerminal that the function reads (moves out of a terminal it holds)."""
+        used = set()
+        for _, _, st in f.stmts():
+            if st[0] == "a":
+                for pl in rvalue_places(st[2]):
+                    for e in place_proj(pl):
+                        if isinstance(e, list) and e[0] == "f" and e[3].endswith("LexerTerminal"):
+                            used.add(e[2])
+        for c in f.calls():
+            for a in c.args:
+                pl = op_place(a)
+                if pl is not None:
+                    for e in place_proj(pl):
+                        if isinstance(e, list) and e[0] == "f" and e[3].endswith("LexerTerminal"):
+                            used.add(e[2])
+        return used
+
+    _consumes = {}
+
+    def consumes_terminal(path, depth=0):
+        """Does the routine, given a whole terminal, use all three of its text-carrying fields (itself, or by handing the
+        terminal whole to a routine that does)?"""
+        if path in _consumes:
+            return _consumes[path]
+        _consumes[path] = False
+        g = F.fns.get(path)
+        if g is None or not g.body or depth > 3:
+            return False
+        params = [i for i in range(1, g.argc + 1) if (g.local_ty(i) or "").startswith("cairo_lang_parser::lexer::LexerTerminal")]
+        if not params:
+            return False
+        ok = TEXT_FIELDS <= terminal_fields_used(g)
+        if not ok:
+            fl = g.flows_to(params[0])
+            ok = any(consumes_terminal(x.path, depth + 1) for x in g.calls() if any(op_local(a) in fl for a in x.args))
+        _consumes[path] = ok
+        return ok
+
+    n_final = 0
     for p, cs in sorted(tr_callers.items()):
         f = F.fns[p]
         ctx.analysed(f)
         for n_, c in enumerate(cs):
             T = place_local(c.dest)
             fl = f.flows_to(T)
-            whole = any(x.name() in SINK_FNS and any(op_local(a) in fl for a in x.args) for x in f.calls())
+            whole_to = [x for x in f.calls() if x.path != c.path and any(op_local(a) in fl and not place_proj(op_place(a)) for a in x.args
+                                                                          if op_place(a) is not None) and consumes_terminal(x.path)]
             got = set()
             for x in f.calls():
                 if x.name() in ("extend", "push") and x.args and "f:pending_trivia" in op_prov(f, x.args[0], 8):
@@ -172,35 +214,23 @@ def run(ctx):
                         if op_local(a) in fl:
                             toks.add("flow")
                     if "flow" in toks:
-                        for fld in ("leading_trivia", "text", "trailing_trivia"):
+                        for fld in TEXT_FIELDS:
                             if "f:" + fld in toks:
                                 got.add(fld)
                         if "c:new_green" in toks:
                             got.add("text")
-            ok = whole or got == {"leading_trivia", "text", "trailing_trivia"}
+            ok = bool(whole_to) or got == TEXT_FIELDS
             ctx.ob("R10.3", "%s|take_raw#%d" % (fn_key(p), n_ + 1), ok,
-                   "the taken terminal is handed whole to %s" % "/".join(SINK_FNS) if whole else
-                   "fields reaching the pending trivia: %s" % sorted(got), c.where())
-    for nm in SINK_FNS:
-        f = F.find1(PARSER, name=nm)
-        ctx.analysed(f)
-        # the terminal parameter's three fields are all consumed
-        fields_used = set()
-        for _, _, st in f.stmts():
-            if st[0] == "a":
-                for pl in rvalue_places(st[2]):
-                    for e in place_proj(pl):
-                        if isinstance(e, list) and e[0] == "f" and e[3].endswith("LexerTerminal"):
-                            fields_used.add(e[2])
-        for c in f.calls():
-            for a in c.args:
-                pl = op_place(a)
-                if pl is not None:
-                    for e in place_proj(pl):
-                        if isinstance(e, list) and e[0] == "f" and e[3].endswith("LexerTerminal"):
-                            fields_used.add(e[2])
-        ctx.ob("R10.3", nm + ":uses-all-text-fields", {"leading_trivia", "text", "trailing_trivia"} <= fields_used,
-               "fields of the terminal consumed: %s" % sorted(fields_used), f.where())
+                   "the taken terminal is handed whole to %s, which uses its leading trivia, text and trailing trivia" % "/".join(sorted(set(last_seg(x.path) for x in whole_to)))
+                   if whole_to else "fields reaching the pending trivia: %s" % sorted(got), c.where())
+    for path, ok in sorted(_consumes.items()):
+        if ok:
+            n_final += 1
+            g = F.fns[path]
+            ctx.analysed(g)
+            ctx.ob("R10.3", last_seg(path) + ":uses-all-text-fields", True,
+                   "a routine that receives a whole terminal consumes its three text-carrying fields (%s)" % sorted(terminal_fields_used(g) & TEXT_FIELDS or ["via a callee"]), g.where())
+    ctx.floor("routines consuming a whole lexer terminal", n_final, 1)
     clones = [c for p, f in F.fns.items() if p.startswith(PARSER) and f.body for c in f.calls()
               if c.name() == "clone" and c.args and "LexerTerminal" in f.local_ty(op_local(c.args[0]) or 0)]
     eof_ok = all(last_seg(c.fn.root) in ("parse_syntax_file", "parse_file_expr", "parse_token_stream_expr", "parse_file_statement_list",
